@@ -287,5 +287,12 @@ func c02(r *h.Result, rng *h.Rng, tier string, replay string) error {
 	if rep != nil {
 		return nil
 	}
-	return c02Prom(r, rng.Fork(), nProm)
+	if err := c02Prom(r, rng.Fork(), nProm); err != nil {
+		return err
+	}
+	rounds, iters := 12, 120
+	if tier != "quick" {
+		rounds, iters = 96, 300
+	}
+	return c02LockProbe(r, rng.Fork(), rounds, iters, "C02/")
 }
